@@ -30,7 +30,7 @@ ASSUMPTIONS = [
 REQUIRED_CELLS = {
     'quick': ['op=add', 'op=sub_roundtrip', 'op=iadd', 'op=isub', 'op=sub_empty', 'op=add_empty', 'op=mul', 'op=div',
               'op=imul', 'op=idiv', 'op=neg', 'op=copy', 'op=copy_basis', 'op=backwards_r', 'op=backwards_none',
-              'op=item_to_set', 'op=set_to_item', 'op=reduce', 'mixed-basis', 'ph=1', 'ph=0'],
+              'op=item_to_set', 'op=set_to_item', 'op=reduce', 'mixed-basis', 'neg-operand', 'ph=1', 'ph=0'],
     'thorough': [],
 }
 
@@ -125,8 +125,12 @@ class World:
 
 
 def draw_world(ch, ctx, n, modes=('mol', 'mol', 'wt_copy', 'wt_coeff'), same_basis=False, reactants=None,
-               x_lo=0.0, x_hi=1.0):
-    """n reactions sharing a reactant (or drawn from ``reactants`` pool sizes) on one package."""
+               x_lo=0.0, x_hi=1.0, signs=False):
+    """n reactions sharing a reactant (or drawn from ``reactants`` pool sizes) on one package.
+
+    ``signs``: an operand may be the *result of negation* (`-r`, X < 0) or of a subtraction whose right
+    operand has the larger conversion (`0.5*r - r`, X < 0): both are listed operations of the class, so their
+    results are legitimate operands of every law."""
     w = World()
     w.pid = ch.choice('pkg', list(rx.PACKAGES))
     w.pnames = list(rx.PACKAGES[w.pid])
@@ -159,7 +163,20 @@ def draw_world(ch, ctx, n, modes=('mol', 'mol', 'wt_copy', 'wt_coeff'), same_bas
         form = ch.choice(f'r{i}.form', ['dict', 'str'])
         r, b = rx.build_reaction(ch, f'r{i}', spec, w.pid, form, mode, w.phases, True, ctx, site='build',
                                  region=f'mode={mode},ph={int(w.tagged)}')
+        if signs:
+            sign = ch.choice(f'r{i}.sign', ['pos', 'pos', 'pos', 'neg', 'neg', 'sub'])
+            if sign == 'neg':
+                r0 = r
+                r = ctx.call('setup.neg', lambda: -r0, region=f'mode={mode},ph={int(w.tagged)}')
+                spec.X = -spec.X
+                ctx.cell('neg-operand')
+            elif sign == 'sub':
+                r0 = r
+                r = ctx.call('setup.sub', lambda: (r0 * 0.5) - r0, region=f'mode={mode},ph={int(w.tagged)}')
+                spec.X = 0.5 * spec.X - spec.X
+                ctx.cell('neg-operand')
         w.specs.append(spec); w.rxns.append(r); w.bases.append(b); w.modes.append(mode)
+    w.any_negative = any(sp.X < 0 for sp in w.specs)
     ctx.cell(f'ph={int(w.tagged)}')
     if len(set(w.bases)) > 1:
         ctx.cell('mixed-basis')
@@ -209,22 +226,36 @@ def prop_binary(ch, ctx):
     op = ch.choice('op', BIN_OPS)
     n = 3 if op == 'add3' else 2
     x_lo = 0.01 if op in ('sub_roundtrip', 'isub_roundtrip', 'sub', 'isub') else 0.0
-    w = draw_world(ch, ctx, n, x_lo=x_lo)
+    w = draw_world(ch, ctx, n, x_lo=x_lo, signs=True)
     a, b = w.rxns[0], w.rxns[1]
     Xa, Xb = w.specs[0].X, w.specs[1].X
+    if op in ('add', 'sum', 'iadd', 'add3', 'sub_roundtrip', 'isub_roundtrip'):
+        # a reactant-normalised reaction cannot represent a sum whose conversions cancel: keep the partial and
+        # total conversions away from zero (only reachable with negated operands) by shrinking later operands
+        for k in range(1, n):
+            xk = w.specs[k].X
+            # partial sums this operand may be added to: a (+ b) from the left, b alone in a + (b + c)
+            partial = [sum(sp.X for sp in w.specs[:k])] + ([w.specs[1].X] if k == 2 else [])
+            for _ in range(8):
+                if xk != 0 and any(abs(t + xk) < 0.25 * max(abs(t), abs(xk)) for t in partial):
+                    xk = xk * 0.5
+            if xk != w.specs[k].X:
+                w.rxns[k].X = xk
+                w.specs[k].X = xk
+        Xb = w.specs[1].X
     B = w.bases[0]
     nua, idx = nu_of(w, 0, B)
     nub, _ = nu_of(w, 1, B)
     region = f'op={op},basisL={w.bases[0]},basisR={w.bases[1]},ph={int(w.tagged)}'
     ctx.cell(f'op={op}')
-    if op in ('sub', 'isub') and not Xa - Xb >= 0.01:
-        # keep the net conversion positive and away from cancellation: shrink b's conversion
+    if op in ('sub', 'isub') and abs(Xa - Xb) < 0.25 * max(abs(Xa), abs(Xb)):
+        # keep the net conversion away from cancellation: b gets a fraction of a's conversion
         Xb = Xa * ch.choice('Xb.frac', [0.125, 0.25, 0.5, 0.75])
         b.X = Xb
         w.specs[1].X = Xb
     before = [snap(r) for r in w.rxns]
     leaves_mol = [rx.ref_of(s, w.pnames, 'mol', w.MW, w.phases) for s in w.specs]
-    feed, tgt, sphase = draw_feed_and_target(ch, w, leaves_mol)
+    feed, tgt, sphase = draw_feed_and_target(ch, w, leaves_mol, both=w.any_negative or (op in ('sub', 'isub') and Xa < Xb))
     rtol = TOL
     operands = list(w.rxns)
 
@@ -356,8 +387,8 @@ def prop_binary(ch, ctx):
         for k, (r, s0) in enumerate(zip(w.rxns, before)):
             assert_pure(ctx, op + '.mutate-result', region, 'abc'[k], r, s0)
     differ = not np.array_equal(nua, nub)
-    if (differ and Xa > 0 and Xb > 0) or op in ('radd0', 'add_empty', 'sub_empty', 'iadd_empty', 'isub_empty'):
-        ctx.nontriv(['binary', op, w.pid, w.modes, list(w.phases), [s.summary() for s in w.specs], tgt, sphase,
+    if (differ and Xa != 0 and Xb != 0) or op in ('radd0', 'add_empty', 'sub_empty', 'iadd_empty', 'isub_empty'):
+        ctx.nontriv(['binary', op, [sp.X < 0 for sp in w.specs], w.pid, w.modes, list(w.phases), [s.summary() for s in w.specs], tgt, sphase,
                      _zero_pattern(feed)])
 
 
@@ -366,7 +397,7 @@ def prop_binary(ch, ctx):
 # ---------------------------------------------------------------------------
 def prop_scale(ch, ctx):
     op = ch.choice('op', ['mul', 'rmul', 'div', 'imul', 'idiv', 'neg'])
-    w = draw_world(ch, ctx, 1)
+    w = draw_world(ch, ctx, 1, signs=True)
     a = w.rxns[0]
     Xa = w.specs[0].X
     B = w.bases[0]
@@ -378,7 +409,7 @@ def prop_scale(ch, ctx):
     ctx.cell(f'op={op}')
     before = snap(a)
     leaves_mol = [rx.ref_of(w.specs[0], w.pnames, 'mol', w.MW, w.phases)]
-    feed, tgt, sphase = draw_feed_and_target(ch, w, leaves_mol, both=(op == 'neg'))
+    feed, tgt, sphase = draw_feed_and_target(ch, w, leaves_mol, both=(op == 'neg' or w.any_negative))
     inplace = op in ('imul', 'idiv')
     target_obj = ctx.call('copy', a.copy, region=region) if inplace else a
     def f():
@@ -410,8 +441,8 @@ def prop_scale(ch, ctx):
             res.basis = 'wt' if res.basis == 'mol' else 'mol'
         ctx.call(op + '.mutate-result', mut, region=region)
         assert_pure(ctx, op + '.mutate-result', region, 'a', a, before)
-    if Xa > 0 and (k != 1 or op == 'neg'):
-        ctx.nontriv(['scale', op, w.pid, w.modes, list(w.phases), w.specs[0].summary(), _xclass(k), tgt, sphase,
+    if Xa != 0 and (k != 1 or op == 'neg'):
+        ctx.nontriv(['scale', op, Xa < 0, w.pid, w.modes, list(w.phases), w.specs[0].summary(), _xclass(k), tgt, sphase,
                      _zero_pattern(feed)])
 
 
@@ -421,7 +452,7 @@ def prop_scale(ch, ctx):
 def prop_purity(ch, ctx):
     op = ch.choice('op', ['copy', 'copy_basis', 'copy_basis', 'backwards_r', 'backwards_r', 'backwards_none',
                           'backwards_none', 'basis_roundtrip'])
-    w = draw_world(ch, ctx, 1)
+    w = draw_world(ch, ctx, 1, signs=True)
     a = w.rxns[0]
     spec = w.specs[0]
     B = w.bases[0]
@@ -450,7 +481,7 @@ def prop_purity(ch, ctx):
                 break
     before = snap(a)
     leaves_mol = [rx.ref_of(spec, w.pnames, 'mol', w.MW, w.phases)]
-    both = op.startswith('backwards')
+    both = op.startswith('backwards') or w.any_negative
     feed, tgt, sphase = draw_feed_and_target(ch, w, leaves_mol, both=both)
     if op == 'copy':
         res = ctx.call(op, a.copy, region=region)
@@ -501,8 +532,8 @@ def prop_purity(ch, ctx):
         res.basis = 'wt' if res.basis == 'mol' else 'mol'
     ctx.call(op + '.mutate-result', mut, region=region)
     assert_pure(ctx, op + '.mutate-result', region, 'a', a, before)
-    if spec.X > 0:
-        ctx.nontriv(['purity', op, w.pid, w.modes, list(w.phases), spec.summary(), want_basis, tgt, sphase,
+    if spec.X != 0:
+        ctx.nontriv(['purity', op, spec.X < 0, w.pid, w.modes, list(w.phases), spec.summary(), want_basis, tgt, sphase,
                      _zero_pattern(feed)])
 
 
